@@ -169,7 +169,10 @@ impl Check for C01Stream {
         if has_surrogate_escape(input) {
             return CaseResult::Discard("\\uD800-\\uDFFF escape (outside the property's domain)".into());
         }
-        let out = run(&[], input);
+        let out = match run_any_sink(&[], input) {
+            Ok(o) => o,
+            Err(m) => return CaseResult::Fail(m),
+        };
         let (noncanon, upper, escapes) = number_tokens_noncanonical(input);
         let info = Info::new(exp.len() >= 2 && (noncanon || escapes || case.touching > 0 || depth >= 3))
             .class_if(upper, "upper_case_exponent")
